@@ -350,7 +350,9 @@ CHECKS["C16"] = dict(
           "f12 == -f21 bit for bit, cached properties == those of a rebuilt body after every call. A failed 5 % comparison is credited to a "
           "known finding (F17: rounding-noise plane normal; F26-C16: lost polygon vertex, the defect F26 of C15) only if repeating both runs "
           "with per-contact output and LEAVING OUT the tetrahedron pairs of that finding's input class from BOTH sums brings all four wrench "
-          "components under 5 %; otherwise it is a VIOLATION. Known findings: F17, F26-C16."),
+          "components under 5 %; otherwise it is a VIOLATION. Known findings: F17, F26-C16. The same calls are repeated with "
+          "return_details=True (base, swapped, moved, on fresh bodies): the wrench must not depend on the flag, and when it does the property "
+          "clauses are judged on the details-on wrenches themselves. One corpus case per listed finding runs first in every run."),
     design_ref="DESIGN.md section 5, C16",
     technique="Coq proofs about a Gallina model of wrench accumulation / express_in / broad phase + per-run correspondence (PrimFloat model vs implementation) and 5 % symmetry, equivariance and call-history measurements on generated body pairs",
     note=TB + "; " + RA + " (none for C16_tree_vs_brute_same_pairs); harness/hydrogen.py generators, harness/impl/c16.py; Python comparisons for the 5 % verdicts",
